@@ -137,12 +137,21 @@ def run(ck: Check):
             l.grad_factor = 1.0
             y1 = l(x)
             up = torch.rand_like(y1)
-            g1, = torch.autograd.grad(y1, [x], grad_outputs=up)
+            params = [p for p in l.parameters() if p.requires_grad]
+            g1, *pg1 = torch.autograd.grad(y1, [x] + params, grad_outputs=up)
             l.grad_factor = f
             y2 = l(x)
-            g2, = torch.autograd.grad(y2, [x], grad_outputs=up)
+            g2, *pg2 = torch.autograd.grad(y2, [x] + params, grad_outputs=up)
             case = {"layer": name, "param": getattr(l, "parametrization", "raw"), "f": f}
             ck.case(case, nontrivial=True, kind="gradfactor")
+            # the factor scales what flows to the INPUT; the gradient of the layer's own parameters stays the analytic derivative of the
+            # relaxation (compared with the analytic formulas above at f = 1): it must not change with f
+            pbad = [(float((a - b).abs().max()), float(b.abs().max())) for a, b in zip(pg2, pg1)
+                    if not (float((a - b).abs().max()) <= 1e-12 * max(1.0, float(b.abs().max())))]
+            if pbad:
+                ratio = float(sum(a.abs().sum() for a in pg2) / max(1e-300, float(sum(b.abs().sum() for b in pg1))))
+                ck.disagree("the gradient factor changes the gradient of the layer's own parameters (it must scale only the gradient flowing to the input)",
+                            dict(case, observed_ratio=ratio), signature={"layer": name.split("-")[0], "what": "gf-parameters"})
             if not torch.equal(y1, y2):
                 ck.disagree("grad_factor changes the forward values", case, signature={"layer": name.split("-")[0], "what": "gf-forward"})
             if not (float((g2 - f * g1).abs().max()) <= 1e-12 * max(1.0, float(g1.abs().max()))):
